@@ -131,6 +131,17 @@ func runTcpSrvScenario(sc tcpSrvScenario, seed int) string {
 	go func() { _ = srv.Serve(l); close(served) }()
 
 	peers := make([]*tcpSrvPeer, sc.nconn)
+	defer func() {
+		// whatever happened: leave no goroutine behind in the bubble
+		for _, p := range peers {
+			if p != nil {
+				p.peer.Close()
+			}
+		}
+		srv.Stop()
+		<-served
+		synctest.Wait()
+	}()
 	for i := range peers {
 		a, b := net.Pipe()
 		name := fmt.Sprintf("peer%d", i)
@@ -158,6 +169,11 @@ func runTcpSrvScenario(sc tcpSrvScenario, seed int) string {
 		_ = m.SetPath(p.path)
 		if sc.dir == "up" {
 			num := p.next
+			if num >= sc.nblk {
+				// the server acknowledged the last block with 2.31: it will never answer this upload
+				p.done = true
+				return
+			}
 			more := num < sc.nblk-1
 			v, _ := blockwise.EncodeBlockOption(blockwise.SZX16, int64(num), more)
 			m.SetCode(codes.PUT)
@@ -224,11 +240,6 @@ func runTcpSrvScenario(sc tcpSrvScenario, seed int) string {
 			}
 		}
 	}
-	for _, p := range peers {
-		p.peer.Close()
-	}
-	srv.Stop()
-	<-served
 	synctest.Wait()
 
 	mu.Lock()
